@@ -79,10 +79,20 @@ class ManifestLoader:
             if not ret:
                 raise ManifestMismatch(relpath, verify_entry, diff)
 
-        with open_potentially_compressed_path(path, 'r',
-                                              encoding='utf8') as f:
-            m.load(f, self.verify_openpgp, self.openpgp_env)
-            st = os.fstat(f.fileno())
+        try:
+            with open_potentially_compressed_path(path, 'r',
+                                                  encoding='utf8') as f:
+                m.load(f, self.verify_openpgp, self.openpgp_env)
+                st = os.fstat(f.fileno())
+        except (EOFError,) + InvalidCompressedFileExceptions as e:
+            raise ManifestSyntaxError(
+                f'Invalid compressed data in Manifest {relpath}: {e}')
+        except OSError as e:
+            # bz2 returns generic OSError without errno
+            if e.errno is not None:
+                raise
+            raise ManifestSyntaxError(
+                f'Invalid compressed data in Manifest {relpath}: {e}')
 
         return m, st
 
